@@ -23,7 +23,8 @@ def cases(draw, tier):
             # what happened to the circuit before it is evaluated here: converted to the bench basis, or looked at (evaluated,
             # sorted, copied) and then had some inputs fixed to constants
             'pre': draw(st.sampled_from([None, None, None, 'into_bench', 'fix_inputs'])),
-            'fix': [draw(st.integers(0, 8)) for _ in range(draw(st.integers(1, 2)))], 'fix_to': draw(st.booleans())}
+            'fix': [draw(st.integers(0, 8)) for _ in range(draw(st.integers(1, 2)))], 'fix_to': draw(st.booleans()),
+            'select': [draw(st.integers(0, 40)) for _ in range(draw(st.sampled_from([0, 0, 1, 2, 3])))]}
 
 
 def check_partial(case):
@@ -116,6 +117,19 @@ def check_partial(case):
                 raise Violation('outputs_mismatch', f'evaluate_circuit_outputs[{o}]={outs[o]!r} vs evaluate_circuit {lazy[o]!r}')
         if set(outs) != set(nl['outputs']):
             raise Violation('outputs_mismatch', f'evaluate_circuit_outputs keys {sorted(outs)}')
+        sel = case.get('select')
+        if sel and labs:
+            # an explicit selection of gates to evaluate (list or tuple; any gates, also repeated): the same verdicts for
+            # everything the selection reaches
+            chosen = [labs[k % len(labs)] for k in sel]
+            part = c.evaluate_circuit(sent(assign), outputs=chosen if len(sel) % 2 else tuple(chosen))
+            cone = refsem.reachable(nl, chosen)
+            for lab in cone:
+                v = part.get(lab, U)
+                if v is True and t[lab] & cube != cube or v is False and t[lab] & cube != 0:
+                    raise Violation('unsound', f'evaluate_circuit(outputs={chosen}) under {assign}: gate {lab} reported {v}')
+                if total and not (v is True or v is False):
+                    raise Violation('undefined_on_total', f'evaluate_circuit(outputs={chosen}) under total assignment {assign}: gate {lab} is {v!r}')
         results[p] = (lazy, full)
         if not total:
             for lab in labs:
